@@ -60,7 +60,7 @@ impl KnownFile {
     }
 }
 
-#[derive(Default)]
+#[derive(Default, Serialize, Deserialize)]
 pub struct Stats {
     pub evaluations: u64,
     pub nontrivial: u64,
@@ -70,6 +70,7 @@ pub struct Stats {
     pub known_hits: BTreeMap<String, u64>,
     pub samples: Vec<serde_json::Value>,
     pub harness_errors: Vec<String>,
+    #[serde(default)]
     pub frozen: bool,
 }
 
@@ -92,6 +93,12 @@ impl Stats {
         }
         self.harness_errors.extend(o.harness_errors);
     }
+}
+
+#[derive(Serialize, Deserialize)]
+pub struct ChunkResult {
+    pub stats: Stats,
+    pub violation: Option<(serde_json::Value, String, String)>,
 }
 
 pub struct Violation<C> {
@@ -286,26 +293,30 @@ pub fn campaign<E: Engine>(
             first = v;
         }
     }
-    // structural minimisation under "an unlisted finding with the same signature is still produced"
-    let first = first.map(|v| {
-        let sig = v.finding.sig.clone();
-        let prop = cfg.prop;
-        let mut pred = |c: &E::Case| {
-            let o = eng.eval(c);
-            let mut hits = BTreeMap::new();
-            unlisted(prop, &o, known, &mut hits).iter().any(|f| f.sig == sig)
-        };
-        let case = eng.minimise(&v.case, &mut pred);
-        let o = eng.eval(&case);
-        let mut hits = BTreeMap::new();
-        let finding = unlisted(prop, &o, known, &mut hits)
-            .into_iter()
-            .find(|f| f.sig == sig)
-            .cloned()
-            .unwrap_or(v.finding);
-        Violation { case, finding }
-    });
+    let first = first.map(|v| minimise_violation(eng, cfg.prop, known, v));
     (total, first)
+}
+
+/// structural minimisation under "an unlisted finding with the same signature is still produced"
+pub fn minimise_violation<E: Engine>(eng: &E, prop: &str, known: &KnownFile, v: Violation<E::Case>) -> Violation<E::Case> {
+    let sig = v.finding.sig.clone();
+    let mut pred = |c: &E::Case| {
+        let o = eng.eval(c);
+        let mut hits = BTreeMap::new();
+        unlisted(prop, &o, known, &mut hits).iter().any(|f| f.sig == sig)
+    };
+    let case = eng.minimise(&v.case, &mut pred);
+    let o = eng.eval(&case);
+    let mut hits = BTreeMap::new();
+    let finding = unlisted(prop, &o, known, &mut hits).into_iter().find(|f| f.sig == sig).cloned().unwrap_or(v.finding);
+    Violation { case, finding }
+}
+
+/// first unlisted finding of `prop` for one case
+pub fn first_unlisted<E: Engine>(eng: &E, prop: &str, known: &KnownFile, case: &E::Case) -> Option<Finding> {
+    let o = eng.eval(case);
+    let mut hits = BTreeMap::new();
+    unlisted(prop, &o, known, &mut hits).first().cloned().cloned()
 }
 
 // ------------------------------------------------------------------ replay files
